@@ -375,6 +375,16 @@ func (core *JApiCore) processResponseAllOf() *jerr.JApiError {
 }
 
 func (core *JApiCore) processSchemaContentJSightAllOf(sc *catalog.SchemaContentJSight, uut *catalog.StringSet) error {
+	if sc.TokenType == jschema.TokenTypeArray {
+		// The items of the array can be objects with the allOf rule.
+		for _, v := range sc.Children {
+			if err := core.processSchemaContentJSightAllOf(v, uut); err != nil {
+				return err
+			}
+		}
+		return nil
+	}
+
 	if sc.TokenType != jschema.TokenTypeObject {
 		return nil
 	}
